@@ -121,6 +121,11 @@ def materialize(interp, name, td, depth=0):
             ctx.register_input(name, "const", None)
             return None
         return materialize(interp, name, td.args[0], depth + 1)
+    if k == "pairlist":
+        from . import loops
+        s = z3.Const(name, loops.PairSeqSort)
+        ctx.register_input(name, "pairlist", s)
+        return PyList([], prefix=s)
     if k == "chunks":
         s = z3.Const(name, SeqSort)
         n = z3.Int(name + "#count")
